@@ -33,6 +33,7 @@ func VerifHarness_C03_FunctionsDoNotMutate() {
 	t := verifFullTable()
 	names := verifNames(t)
 	name := names[verifrt.Choose("fn", len(names))]
+	verifrt.Tag("fnName", name)
 	fn := t[name]
 	n := verifrt.Choose("nargs", 4)
 	verifrt.Assume(fn.MinArity <= n && n <= fn.MaxArity)
